@@ -76,3 +76,31 @@ Example C15_nonvacuous :
   nth 10 (unrolled 4 9 1) [] = [(2%nat, 8); (3%nat, 7)].
 Proof. repeat split; try lia; reflexivity. Qed.
 Print Assumptions C15_nonvacuous.
+
+(* PARTIAL pipeline_equiv.  Full statement: for every loop of the recognised shape the final
+   contents of all buffers equal those of the sequential loop under every interleaving permitted
+   by the barriers.  Proved: for ALL stage counts, ALL trip counts n >= S-1 and EVERY interleaving
+   of the cores between consecutive barriers, the unrolled double-buffered code leaves the memory
+   of the sequential loop run with the parity-selected copies — under the footprint hypotheses
+   overtake_safe / stage_safe (the decidable class safe_pipe is what L2 uses; safe_pipe ->
+   overtake_safe and the renaming step selected copies -> single buffer are not proved, they are
+   covered by the L2 comparison with the interpreted original loop). *)
+From Snax Require Import Proofs.MultiCoreCommute Proofs.C15EquivProofs.
+
+Theorem C15_pipeline_equiv_partial :
+  forall p ds n m ss,
+  vids_unique p -> overtake_safe p ds -> stage_safe p ds ->
+  (1 <= nstages p)%nat -> (nstages p - 1 <= n)%nat ->
+  Forall2 schedule_of (pipe_events p ds (Z.of_nat n) 1) ss ->
+  meq (exec (concat ss) m) (exec (concat (seq_events_sel p ds 0 (Z.of_nat n) 1)) m).
+Proof. exact pipeline_equiv_partial. Qed.
+Print Assumptions C15_pipeline_equiv_partial.
+
+(* the reordering principle behind it (shared theory): a permutation that keeps the relative
+   order of every conflicting pair computes the same memory *)
+Theorem C15_reorder_equiv :
+  forall p q m, NoDup p -> Permutation p q ->
+  (forall a b, before p a b -> before q b a -> conflictb a b = false) ->
+  meq (exec q m) (exec p m).
+Proof. exact reorder_equiv. Qed.
+Print Assumptions C15_reorder_equiv.
